@@ -32,6 +32,9 @@ def make_fn(name, r, s, dtype):
         return lambda x: s * np.where(x >= r, dtype(1), dtype(-1))
     if name == "sin":
         return lambda x: s * np.sin(dtype(3 * np.pi) * (x - r))
+    if name == "plateau":
+        # a small negative plateau left of r, a jump at r, steep and large to the right: interpolation is slow on it
+        return lambda x: s * np.where(x < r, dtype(-1e-3), dtype(1e6) * (dtype(1) + x - r))
     raise KeyError(name)
 
 
@@ -40,6 +43,11 @@ FUNCS = ["linear", "cubic", "quadratic", "exp", "tanh", "jump", "sin"]
 BRACKETS = [(-1.0, 2.0, 0.3), (2.0, -1.0, 0.3), (0.3, 2.0, 0.3), (-1.0, 0.3, 0.3), (1.0, 2.0, 0.3), (2.0, 1.0, 0.3), (5.0, 9.0, 7.3), (9.0, 5.0, 7.3), (-9.0, -5.0, -7.3), (0.25, 0.375, 0.3),
             # wide brackets whose ends differ by orders of magnitude from the root (relative tolerances must follow the iterate, not the initial end)
             (0.0, 4096.0, 0.3), (4096.0, 0.0, 0.3), (-1024.0, 1.0, 0.3), (0.0, 4096.0, 3000.7), (4096.0, 0.0, 3000.7)]
+
+
+# brackets nine orders of magnitude wider than the root's neighbourhood, both orders: with tol = None the solvers can exhaust their iteration budget here
+# (see the open finding F40); whatever they then report must still be true
+WIDE = [(-1e9, 3e9, 0.0), (3e9, -1e9, 0.0), (-1e9, 3e9, 0.3), (3e9, -1e9, 0.3), (-3e9, 1e9, -0.3), (1e9, -3e9, -0.3)]
 
 
 def eff_tol(tol, dtype, D):
@@ -114,6 +122,15 @@ def scalar_case(case):
                 # tolerance of the residual clause scales with nothing: the statement says 'to within the tolerance'
                 judge(r, "C14/scalar/%s" % fn, f, a, b, x, bool(ok), tol_eff, dtype, cs)
                 r.out(("scalar", fn, case["dtype"], bool(ok), s >= 1e3, a < b))
+    for fn in ("plateau", "jump", "tanh"):
+        for (a, b, rt) in WIDE:
+            for s in (1.0, 1e-6, 1e3):
+                f = make_fn(fn, rt, s, dtype)
+                cs = dict(section="scalar", dtype=case["dtype"], tol=case["tol"], fn=fn, bracket=[a, b], root=rt, scale=s, wide=True)
+                x, ok = opt.brentsroot(f, [dtype(a), dtype(b)], tol=case["tol"])
+                r.n += 1
+                judge(r, "C14/scalar-wide/%s" % fn, f, a, b, x, bool(ok), tol_eff, dtype, cs)
+                r.out(("scalar-wide", fn, case["dtype"], bool(ok), a < b))
     r.samples.append(dict(section="scalar", dtype=case["dtype"], tol=case["tol"], functions=len(FUNCS), brackets=len(BRACKETS), scales=case["scales"]))
     return r
 
